@@ -35,8 +35,8 @@ Lemma lookup_memo_no_ops w c path vers epath evers r :
 Proof.
   intros Hs Hi Hp Hv Hr.
   unfold Seq.lookup, lookup_m. rewrite Hs.
-  unfold client_init, bindM, get_client, ret; cbn. rewrite Hi; cbn. rewrite Hp, Hv; cbn.
-  unfold record_do, bindM, get_client, ret; cbn. rewrite Hr; cbn.
+  unfold client_init, record_do, bindM, get_client, ret.
+  cbn [s_c s_w s_tr]. rewrite Hi. rewrite Hp, Hv. cbn [s_c s_w s_tr]. rewrite Hr.
   destruct r; eexists; split; reflexivity.
 Qed.
 
@@ -46,7 +46,7 @@ Lemma lookup_init_error_memo w c path vers e :
   lookup w c path vers = (LErr e, [], w, c).
 Proof.
   intros Hs Hi. unfold Seq.lookup, lookup_m. rewrite Hs.
-  unfold client_init, bindM, get_client, ret; cbn. rewrite Hi; cbn. reflexivity.
+  unfold client_init, bindM, get_client, ret. cbn [s_c s_w s_tr]. rewrite Hi. reflexivity.
 Qed.
 End Basic.
 
